@@ -195,6 +195,21 @@ def _stack_table(model, fn, tokname, stack_pred0, r):
                         and not d.args.args and len(d.body) == 1 and isinstance(d.body[0], ast.Return) \
                         and d.body[0].value is not None:
                     return val_text(d.body[0].value)
+        if isinstance(e, ast.Call) and not e.keywords:
+            # a one-line helper `def h(self, a): return <expr>`: its expression with the arguments substituted
+            rc = model.resolve_call(e)
+            if rc and rc[0] == 'func' and not isinstance(rc[1].node, ast.Lambda) and len(rc[1].node.body) == 1 \
+                    and isinstance(rc[1].node.body[0], ast.Return) and rc[1].node.body[0].value is not None:
+                g = rc[1]
+                params = g.params[1:] if g.cls is not None and g.outer is None else g.params
+                if len(params) == len(e.args):
+                    import copy as _copy
+                    sub = dict(zip(params, e.args))
+
+                    class _S(ast.NodeTransformer):
+                        def visit_Name(self, n):
+                            return _copy.deepcopy(sub[n.id]) if n.id in sub else n
+                    return val_text(_S().visit(_copy.deepcopy(g.node.body[0].value)))
         return unparse(e)
 
     def actions(stmts, env):
